@@ -699,21 +699,31 @@ def blueprints(
     meta_pct=14,
     density=40,
     pre_pct=20,
+    own_param_outputs=False,
 ):
     sp = spec()
     model = GenModel()
     n = draw(st.integers(min_nodes, max_nodes))
     weights = weights or CLASS_WEIGHTS
+    if not own_param_outputs:
+        # tasks returning one of their own parameters (dep(self.cfg)) make identifiers depend on
+        # what was cached when: only the identifier checks, which model that, generate them
+        weights = [(c, w) for c, w in weights if c != "TPass"]
     pool = [c for c, w in weights for _ in range(w)]
     for idx in range(n):
         cls = draw(st.sampled_from(pool))
         if root_task and idx == n - 1:
-            cls = draw(st.sampled_from(["T", "TOut", "TInner", "TPass"]))
+            cls = draw(st.sampled_from(["T", "TOut", "TInner"] + (["TPass"] if own_param_outputs else [])))
         if not submits and sp[cls]["task"]:
             cls = "Node"
         args = draw_args(draw, model, cls, idx, density)
         if args is None:
-            cls, args = "Leaf", [["i", draw(INTS)]]
+            # a required configuration value could not be provided (nothing to refer to yet)
+            if sp[cls]["task"]:
+                cls = "T"
+                args = draw_args(draw, model, cls, idx, density)
+            else:
+                cls, args = "Leaf", [["i", draw(INTS)]]
         node = {"cls": cls, "args": args, "meta": None, "tags": [], "pre": [], "patches": [], "submit": None}
         s = sp[cls]
         if meta and not s["task"] and chance(draw, meta_pct):
